@@ -48,11 +48,25 @@ CALL = {"S_periodogram": "algorithms.periodogram", "S_pcsd": "algorithms.periodo
 
 
 # ------------------------------------------------------------------ inputs
-def data(seed, shape, cplx=False):
+def data(seed, shape, cplx=False, ints=False):
+    """random data whose scale (2^-60 .. 2^40), offset and memory layout (C, Fortran, strided view,
+    integer dtype where the caller allows it) vary with the seed: a frequency axis must not depend on
+    any of them"""
     r = np.random.RandomState(seed % (2 ** 31))
     x = r.randn(*shape)
     if cplx:
         x = x + 1j * r.randn(*shape)
+    v = seed % 7
+    if ints and not cplx and v == 3:
+        return np.round(8 * x).astype(np.int64) + (seed % 5 - 2)
+    k = (seed // 7) % 101 - 60
+    x = x * 2.0 ** k + (seed % 5 - 2) * 2.0 ** k
+    if v == 1 and x.ndim > 1:
+        x = np.asfortranarray(x)
+    elif v == 2:
+        big = np.zeros(shape[:-1] + (2 * shape[-1],), dtype=x.dtype)
+        big[..., ::2] = x
+        x = big[..., ::2]          # non-contiguous view
     return x
 
 
@@ -92,10 +106,21 @@ def src_coq(src):
 
 
 def mk_series(src, x):
+    """src["v"] selects the way the same sampling is handed over: bare number + time_unit, a TimeArray
+    interval, a ready UniformTime axis, a Frequency object"""
     import nitime.timeseries as ts
+    v = src.get("v", "plain")
     if src["k"] == "interval":
-        return ts.TimeSeries(x, sampling_interval=float.fromhex(src["d"]), time_unit=src["u"])
-    return ts.TimeSeries(x, sampling_rate=float.fromhex(src["r"]), time_unit=src["u"])
+        d, u = float.fromhex(src["d"]), src["u"]
+        if v == "timearray":
+            return ts.TimeSeries(x, sampling_interval=ts.TimeArray(d, time_unit=u))
+        if v == "uniformtime":
+            return ts.TimeSeries(x, time=ts.UniformTime(length=x.shape[-1], sampling_interval=d, time_unit=u))
+        return ts.TimeSeries(x, sampling_interval=d, time_unit=u)
+    r = float.fromhex(src["r"])
+    if v == "frequency":
+        r = ts.Frequency(r)
+    return ts.TimeSeries(x, sampling_rate=r, time_unit=src["u"])
 
 
 def opt_hex(v):
@@ -159,29 +184,50 @@ def run_grid(a):
         kw["Fs"] = float.fromhex(src["fs"])
     out = {"lib": [], "note": ""}
     fs_impl = kw.get("Fs", 2 * PI)
+    fsv = src.get("v", "kw")
+    if "Fs" in kw:
+        if fsv == "np64":
+            kw["Fs"] = np.float64(kw["Fs"])
+        elif fsv == "int" and float(kw["Fs"]).is_integer():
+            kw["Fs"] = int(kw["Fs"])
+        elif fsv == "freq":
+            import nitime.timeseries as ts_
+            kw["Fs"] = ts_.Frequency(kw["Fs"])
+
+    def call(fn, x, **extra):
+        if fsv == "pos" and "Fs" in kw:
+            return fn(x, kw["Fs"], **extra)
+        return fn(x, **dict(kw, **extra))
+
+    def spec_arg(x, name):
+        """N / NFFT argument, or the precomputed transform Sk in its place"""
+        if a.get("sk"):
+            from scipy import fftpack
+            return {"Sk": fftpack.fft(x, n=NFFT)}
+        return {name: (None if a.get("nfft_none") else NFFT)}
     sd = "onesided" if sides == "OneSided" else "twosided"
     cplx = bool(a.get("cplx"))
     if s in ALGO_SITES:
         if s == "S_periodogram":
-            x = data(seed, (N,), cplx)
-            f, p = tsa.periodogram(x, N=(None if a.get("nfft_none") else NFFT), sides=a.get("sides_arg", sd), **kw)
+            x = data(seed, (N,), cplx, ints=True)
+            f, p = call(tsa.periodogram, x, sides=a.get("sides_arg", sd), **spec_arg(x, "N"))
             ln = p.shape[-1]
         elif s == "S_pcsd":
-            x = data(seed, (2, N), cplx)
-            f, p = tsa.periodogram_csd(x, NFFT=(None if a.get("nfft_none") else NFFT), sides=a.get("sides_arg", sd), **kw)
+            x = data(seed, (2, N), cplx, ints=True)
+            f, p = call(tsa.periodogram_csd, x, sides=a.get("sides_arg", sd), **spec_arg(x, "NFFT"))
             ln = p.shape[-1]
         elif s == "S_mt_psd":
             x = data(seed, (N,))
-            (f, p, _), nw = mt_try(lambda nw: tsa.multi_taper_psd(x, NW=nw, NFFT=(NFFT or None), sides=sd,
-                                                                 adaptive=False, jackknife=False, **kw))
+            (f, p, _), nw = mt_try(lambda nw: call(tsa.multi_taper_psd, x, NW=nw, NFFT=(NFFT or None), sides=sd,
+                                                   adaptive=False, jackknife=False))
             ln = p.shape[-1]
         elif s == "S_mt_csd":
             x = data(seed, (2, N))
-            (f, p), nw = mt_try(lambda nw: tsa.multi_taper_csd(x, NW=nw, NFFT=(NFFT or None), sides=sd,
-                                                              adaptive=False, **kw))
+            (f, p), nw = mt_try(lambda nw: call(tsa.multi_taper_csd, x, NW=nw, NFFT=(NFFT or None), sides=sd,
+                                                adaptive=False))
             ln = p.shape[-1]
         elif s == "S_gs_welch":
-            x = data(seed, (2, N))
+            x = data(seed, (2, N), ints=True)
             f, p = tsa.get_spectra(x, method=dict(this_method="welch", NFFT=NFFT, **kw))
             ln = p.shape[-1]
             out["lib"] = list(mlab.psd(data(seed + 1, (max(N, NFFT),)), NFFT=NFFT, Fs=fs_impl)[1])
@@ -196,7 +242,7 @@ def run_grid(a):
                                                                           adaptive=False, **kw)))
             ln = p.shape[-1]
         elif s == "S_cache_fft":
-            x = data(seed, (2, N))
+            x = data(seed, (2, N), ints=True)
             f, cache = tsa.cache_fft(x, [(0, 1)], lb=(lb or 0), ub=ub, method=dict(this_method="welch", NFFT=NFFT, **kw))
             ln = cache["FFT_slices"][0].shape[-1]
             out["bins"] = first_segment_bins(x[0], NFFT, cache["FFT_slices"][0])
@@ -227,7 +273,7 @@ def run_grid(a):
             (f, ln), nw = mt_try(go)
         elif s == "A_MTCoh":
             f, ln = None, None
-            for nw in (2, 1.5, 1, 2.5, 3, 4):
+            for nw in (() if a.get("freq_only") else (2, 1.5, 1, 2.5, 3, 4)):
                 try:
                     C = nta.MTCoherenceAnalyzer(T, bandwidth=nw * 2 * fs_impl / N, adaptive=False)
                     f = C.frequencies
@@ -275,9 +321,11 @@ def run_grid(a):
             S = nta.SNRAnalyzer(T)
             f = S.mt_frequencies
             try:
+                if a.get("freq_only"):
+                    raise ZeroDivisionError("not computed")
                 ln = S.mt_signal_psd.shape[-1]
             except Exception as e:
-                if not is_dpss_failure(e):
+                if not (a.get("freq_only") or is_dpss_failure(e)):
                     raise
                 ln = len(f)
                 out["note"] = "nolen"
@@ -296,7 +344,8 @@ def run_keep(a):
     Y = np.abs(np.fft.fft(y))
     X = np.abs(np.fft.fft(x))
     n = a["N"]
-    return {"kept": [k for k in range(n // 2 + 1) if Y[k] > 1e-9 * X.max()], "fs_impl": float(T.sampling_rate)}
+    # per-bin ratio: independent of the data's scale and offset
+    return {"kept": [k for k in range(n // 2 + 1) if Y[k] > 1e-6 * X[k]], "fs_impl": float(T.sampling_rate)}
 
 
 def run_circle(a):
@@ -529,11 +578,16 @@ def oracle_sine(a, k0):
 
 
 # ------------------------------------------------------------------ generator
-FS_LIST = [1.0, 2.0, 0.5, 10.0, 2 * PI, 1000.0, 0.37, 123.456, 1 / 3.0, 44100.0]
+FS_LIST = [1.0, 2.0, 0.5, 10.0, 2 * PI, 1000.0, 0.37, 123.456, 1 / 3.0, 44100.0,
+           0.01, 3e-3, 2.0 ** -20, 1e4, 2.5e5, 1e6, 2.0 ** 30, 7.0, 64.0]
 # (interval, unit) pairs: whole picoseconds
 IV_LIST = [(2.0, "ms"), (0.5, "s"), (250.0, "us"), (0.1, "s"), (1.25, "ms"), (1.0, "s"), (40.0, "ms"), (12.5, "us"),
-           (0.002, "s"), (2000.0, "us")]
-RATE_LIST = [(500.0, "ms"), (2.0, "s"), (4000.0, "us"), (0.5, "s"), (PI, "ms"), (10.0, "us")]
+           (0.002, "s"), (2000.0, "us"), (100.0, "s"), (1.0, "us"), (50000.0, "ms"), (0.0001, "s"), (4.0, "us")]
+RATE_LIST = [(500.0, "ms"), (2.0, "s"), (4000.0, "us"), (0.5, "s"), (PI, "ms"), (10.0, "us"),
+             (0.01, "s"), (1e5, "us"), (1e4, "ms"), (2.0 ** -7, "ms")]
+# sizes beyond the K range: around powers of two, primes, a few thousand
+LARGE = [127, 128, 129, 255, 256, 257, 511, 512, 513, 1000, 1009, 1023, 1024, 1025, 2003, 2047, 2048, 2049,
+         4096, 4097, 4099, 8191, 8192, 8193]
 
 
 def pick_band(rng, fs, n, kind):
@@ -557,12 +611,12 @@ def gen_src(rng, analyzer):
     if not analyzer:
         if rng.random() < 0.12:
             return {"k": "default"}
-        return {"k": "direct", "fs": rng.choice(FS_LIST).hex()}
+        return {"k": "direct", "fs": rng.choice(FS_LIST).hex(), "v": rng.choice(["kw", "kw", "pos", "np64", "int", "freq"])}
     if rng.random() < 0.65:
         d, u = rng.choice(IV_LIST)
-        return {"k": "interval", "d": float(d).hex(), "u": u}
+        return {"k": "interval", "d": float(d).hex(), "u": u, "v": rng.choice(["plain", "plain", "timearray", "uniformtime"])}
     r, u = rng.choice(RATE_LIST)
-    return {"k": "rate", "r": float(r).hex(), "u": u}
+    return {"k": "rate", "r": float(r).hex(), "u": u, "v": rng.choice(["plain", "plain", "frequency"])}
 
 
 def gen_actions(ctx):
@@ -590,8 +644,10 @@ def gen_actions(ctx):
                 m = rng.choice([n, n, max(2, n - rng.randint(0, 3))])
                 cplx = sides == "TwoSided" and rng.random() < 0.5
                 sa = {"sides_arg": "default"} if (cplx or (sides == "OneSided" and rng.random() < 0.3)) else {}
-                grid("S_periodogram", m, n, sides, cplx=cplx, nfft_none=(m == n and rng.random() < 0.3), **sa)
-                grid("S_pcsd", m, n, sides, cplx=cplx, nfft_none=(m == n and rng.random() < 0.3), **sa)
+                grid("S_periodogram", m, n, sides, cplx=cplx, nfft_none=(m == n and rng.random() < 0.3),
+                     sk=(rng.random() < 0.2), **sa)
+                grid("S_pcsd", m, n, sides, cplx=cplx, nfft_none=(m == n and rng.random() < 0.3),
+                     sk=(rng.random() < 0.2), **sa)
                 grid("S_gs_pcsd", n, n, sides)
             # multitaper: data length nd <= n, NFFT = n (or smaller than the data: NFFT := N)
             if n >= 3:
@@ -653,12 +709,48 @@ def gen_actions(ctx):
             fs = rng.choice(FS_LIST)
             acts.append({"kind": "circle", "fs": float(fs).hex(),
                          "omega": [float(2 * PI * k / n).hex() for k in range(n // 2 + 1)]})
+    # ---- sizes far beyond the K range (the theorems cover them; the tie must sample them too)
+    kmax = ctx.scale(600, 2100)          # above this: exact oracle only (no Coq evaluation)
+    pool = LARGE if not ctx.quick else sorted(set([1025, 2049, 4097, 8193] + rng.sample(LARGE, 7)))
+    for n in pool:
+        big = {"nok": n > kmax, "large": True}
+        for sides in ("OneSided", "TwoSided"):
+            grid("S_periodogram", n, n, sides, **big)
+            grid("S_pcsd", n - rng.randint(0, 5), n, sides, sk=(rng.random() < 0.3), **big)
+        grid("S_mt_psd", 33, n, "OneSided", **big)
+        grid("S_mt_csd", 40, n, rng.choice(["OneSided", "TwoSided"]), **big)
+        grid("S_gs_pcsd", n, n, "OneSided", **big)
+        grid("S_gs_mt", 33, n, "OneSided", **big)
+        grid("S_gs_welch", 2 * n + 3, n, **big)
+        grid("U_get_freqs", n, n, **big)
+        src = gen_src(rng, False)
+        lb, ub = pick_band(rng, src_fs_float(src), n, "band")
+        grid("S_cache_fft", 2 * n + 5, n, src=src, lb=lb, ub=ub, **big)
+        grid("S_cache_fft", 2 * n, n, **big)
+        for site in ("A_SparseCoh", "A_SeedCoh"):
+            src = gen_src(rng, True)
+            lb, ub = pick_band(rng, src_fs_float(src), n, rng.choice(["whole", "band"]))
+            grid(site, 2 * n + 1, n, src=src, lb=lb, ub=ub, **big)
+        grid("A_Coh_welch", 3 * n, n, **big)
+        grid("A_Coh_pcsd", n, n, **big)
+        grid("A_Spec_psd", 2 * n + 1, n, **big)
+        grid("A_Spec_cpsd", 2 * n + 1, n, **big)
+        grid("A_Spec_periodogram", n, n, **big)
+        grid("A_Spec_fourier_real", n, n, **big)
+        grid("A_Spec_fourier_complex", n, n, "TwoSided", **big)
+        grid("A_MTCoh", n, n, freq_only=True, **big)
+        grid("A_SNR", n, n, freq_only=True, **big)
+        grid("A_Granger", 200, 200, nfreqs=n, **big)
+        src = gen_src(rng, True)
+        lb, ub = pick_band(rng, src_fs_float(src), n, "band")
+        acts.append({"kind": "keep", "src": src, "N": n, "lb": opt_hex(lb), "ub": opt_hex(ub), "seed": nxt(), "large": True})
     return acts
 
 
 def klass(a):
     if a["kind"] == "grid":
-        return finding_key(a)[4:] + "/" + a["src"]["k"] + ("-" + a["src"]["u"] if "u" in a["src"] else "")
+        return (finding_key(a)[4:] + "/" + a["src"]["k"] + ("-" + a["src"]["u"] if "u" in a["src"] else "")
+                + ("/N>150" if a.get("large") else ""))
     if a["kind"] == "keep":
         return "filtered_fourier/%s/%s" % ("odd" if a["N"] % 2 else "even", a["src"].get("u", ""))
     return a["kind"]
@@ -800,8 +892,15 @@ def run(ctx):
     # interleave so that every shard holds small and large sizes (balanced coqc times)
     shard = ctx.scale(160, 400)
     nsh = max(1, -(-len(cases) // shard))
+    oracle_only = [c for c in cases if c.replay["action"].get("nok")]
+    cases = [c for c in cases if not c.replay["action"].get("nok")]
+    nsh = max(1, -(-len(cases) // shard))
     cases = [cases[i] for i in sorted(range(len(cases)), key=lambda i: (i % nsh, i))]
     kbad = check_k(ctx, cases, shard)
+    for c in oracle_only:
+        ctx.count_case(c)
+    cases = cases + oracle_only          # indices of kbad stay valid (K cases come first)
+    ctx.extra["oracle_only_large_cases"] = len(oracle_only)
     t2 = time.time()
     nfail = 0
     for i, c in enumerate(cases):
